@@ -34,6 +34,7 @@ type Contract struct {
 	Modes    map[string]string   // contract mode used at a call site, keyed "Name#k"
 	Loops    map[int][]Clause // invariants by loop ordinal (1-based, source order of loop headers)
 	LoopMod  map[int][]string
+	LoopIso  map[int]bool // loops whose body obligations do not see the assertions made between the requires and the loop head
 	LoopAssume map[int][]Clause // assumed (NOT proved) facts at a loop head; each is listed in the evidence
 	Interf   []Interference
 	AtLocks  []AtLock
@@ -225,7 +226,7 @@ func (db *ContractDB) parseContractText(file, text, defaultPkg string) error {
 			}
 		case "func":
 			key := strings.TrimSpace(c.rest)
-			cur = &Contract{Pkg: pkg, FuncKey: key, Modes: map[string]string{}, Ats: map[string][]Clause{}, Loops: map[int][]Clause{}, LoopAssume: map[int][]Clause{}, LoopMod: map[int][]string{}, Options: map[string]string{}, File: file, Line: c.line}
+			cur = &Contract{Pkg: pkg, FuncKey: key, Modes: map[string]string{}, Ats: map[string][]Clause{}, Loops: map[int][]Clause{}, LoopAssume: map[int][]Clause{}, LoopMod: map[int][]string{}, LoopIso: map[int]bool{}, Options: map[string]string{}, File: file, Line: c.line}
 			if old, dup := db.Contracts[pkg+"::"+key]; dup {
 				return fmt.Errorf("%s:%d: duplicate contract for %s (also %s:%d)", file, c.line, key, old.File, old.Line)
 			}
@@ -272,6 +273,13 @@ func (db *ContractDB) parseContractText(file, text, defaultPkg string) error {
 				return fmt.Errorf("%s:%d: loop outside func", file, c.line)
 			}
 			f := strings.Fields(c.rest)
+			if len(f) == 2 && f[1] == "isolated" {
+				// loop N isolated: the body is verified from the requires, the loop frame and the invariants alone
+				if n, err := strconv.Atoi(f[0]); err == nil {
+					cur.LoopIso[n] = true
+					continue
+				}
+			}
 			if len(f) < 3 {
 				return fmt.Errorf("%s:%d: bad loop clause", file, c.line)
 			}
